@@ -2,6 +2,8 @@ package conngater
 
 import (
 	"context"
+	"errors"
+	"fmt"
 	"net"
 	"sync"
 
@@ -224,6 +226,10 @@ func (cg *BasicConnectionGater) ListBlockedAddrs() []net.IP {
 // BlockSubnet adds an IP subnet to the set of blocked addresses.
 // Note: active connections to the IP subnet are not automatically closed.
 func (cg *BasicConnectionGater) BlockSubnet(ipnet *net.IPNet) error {
+	ipnet, err := canonicalSubnet(ipnet)
+	if err != nil {
+		return err
+	}
 	if cg.ds != nil {
 		err := cg.ds.Put(context.Background(), datastore.NewKey(keySubnet+ipnet.String()), []byte(ipnet.String()))
 		if err != nil {
@@ -240,8 +246,28 @@ func (cg *BasicConnectionGater) BlockSubnet(ipnet *net.IPNet) error {
 	return nil
 }
 
+// canonicalSubnet returns the subnet in the form net.ParseCIDR gives it: the network
+// address with the host bits cleared. Rules are keyed and persisted by the textual
+// form of the subnet, so two spellings of one subnet (1.2.3.4/24 and 1.2.3.0/24) must
+// map to the same rule, and a subnet whose textual form cannot be parsed back (a mask
+// that is not a prefix length) would make the persisted rules unloadable.
+func canonicalSubnet(ipnet *net.IPNet) (*net.IPNet, error) {
+	if ipnet == nil {
+		return nil, errors.New("nil subnet")
+	}
+	_, canonical, err := net.ParseCIDR(ipnet.String())
+	if err != nil {
+		return nil, fmt.Errorf("invalid subnet %s: %w", ipnet, err)
+	}
+	return canonical, nil
+}
+
 // UnblockSubnet removes an IP address from the set of blocked addresses
 func (cg *BasicConnectionGater) UnblockSubnet(ipnet *net.IPNet) error {
+	ipnet, err := canonicalSubnet(ipnet)
+	if err != nil {
+		return err
+	}
 	if cg.ds != nil {
 		err := cg.ds.Delete(context.Background(), datastore.NewKey(keySubnet+ipnet.String()))
 		if err != nil {
